@@ -89,11 +89,13 @@ func (d *updogDriver) openFile(file string, optValues url.Values) (driver.Conn, 
 		opts = append(opts, updog.WithCache(lruCache))
 	}
 
-	d.fileConnMtx.RLock()
-	conn, ok := d.fileConnCache[key]
-	d.fileConnMtx.RUnlock()
+	// looking up, opening and registering the connection is one critical section,
+	// otherwise concurrent callers open the same file several times and all but
+	// one of the opened indexes are lost.
+	d.fileConnMtx.Lock()
+	defer d.fileConnMtx.Unlock()
 
-	if ok {
+	if conn, ok := d.fileConnCache[key]; ok {
 		conn.refs.Add(1)
 		return conn, nil
 	}
@@ -103,13 +105,13 @@ func (d *updogDriver) openFile(file string, optValues url.Values) (driver.Conn, 
 		return nil, fmt.Errorf("couldn't open index file %q: %v", file, err)
 	}
 
-	conn = &fileConn{
+	conn := &fileConn{
 		idx: idx,
+		d:   d,
+		key: key,
 	}
 
-	d.fileConnMtx.Lock()
 	d.fileConnCache[key] = conn
-	d.fileConnMtx.Unlock()
 
 	conn.refs.Add(1)
 
@@ -127,6 +129,9 @@ func (d *updogDriver) openConn(host string, port string) (driver.Conn, error) {
 
 type fileConn struct {
 	idx *updog.Index
+
+	d   *updogDriver
+	key fileCacheKey
 
 	refs atomic.Int32
 }
@@ -148,9 +153,22 @@ func (c *fileConn) prepare(query string) (*fileStmt, error) {
 }
 
 func (c *fileConn) Close() error {
+	c.d.fileConnMtx.Lock()
+	defer c.d.fileConnMtx.Unlock()
+
 	if c.refs.Add(-1) <= 0 {
+		// a connection whose index is closed must not be handed out again.
+		if c.d.fileConnCache[c.key] == c {
+			delete(c.d.fileConnCache, c.key)
+		}
+
 		idx := c.idx
 		c.idx = nil
+
+		if idx == nil {
+			return nil
+		}
+
 		return idx.Close()
 	}
 
